@@ -119,8 +119,9 @@ def small_alphabet(phase):
 
 
 def regular_refs(phase, n):
-    """Reference melodies for the deviation-bounded space: n notes 0.5 s apart, >= 200 cents apart."""
-    b, f0 = base_of(phase) + 10, f0_of(phase)
+    """Reference melodies for the deviation-bounded space: n notes 0.5 s apart, >= 200 cents apart (first onset
+    at >= 0.2 s so that two onset shifts of -60 ms keep every time non-negative)."""
+    b, f0 = base_of(phase) + 20, f0_of(phase)
     out = []
     for durs in ((25, 45, 25, 100), (100, 25, 45, 25)):
         out.append(tuple((T(b + 50 * k), T(b + 50 * k + durs[k]), cents(f0, 200 * k)) for k in range(n)))
@@ -161,6 +162,11 @@ def edits(x):
     return out
 
 
+def valid_side(side):
+    """Valid per the documentation: non-negative times, positive durations, positive pitches."""
+    return all(n[0] >= 0 and n[1] > n[0] and n[2] > 0 for n in side)
+
+
 def dev_space(tier, phase):
     out, seen = [], set()
     for ref in regular_refs(phase, 4 if tier == "thorough" else 3):
@@ -169,6 +175,8 @@ def dev_space(tier, phase):
         if tier == "thorough":
             cand += [e2 for a in e1 for e2 in edits(a)]
         for est in cand:
+            if not valid_side(est):
+                raise core.HarnessError("deviation space produced an invalid note list %r" % (est,))
             if (ref, est) not in seen:
                 seen.add((ref, est))
                 out.append((ref, est))
@@ -237,6 +245,14 @@ def _wrap_no_offset(ri, rp, ei, ep, **kw):
 
 
 SWAP = {"Precision": "Recall", "Recall": "Precision", "F-measure": "F-measure"}
+SWAP_PR = {"Precision": "Recall", "Recall": "Precision"}
+
+
+def swap_map(cfg):
+    """P <-> R always; F-measure is symmetric under the exchange only for beta == 1."""
+    return SWAP if cfg.get("beta", 1.0) == 1.0 else SWAP_PR
+
+
 ONSET_CHAIN = ("onset_tolerance", [0.005, 0.01, 0.04, 0.05, 0.06, 0.1, 0.5])
 PITCH_CHAIN = ("pitch_tolerance", [1.0, 25.0, 50.0, 100.0, 1175.0, 1250.0])
 RATIO_CHAIN = ("offset_ratio", [0.02, 0.06, 0.2, 0.5, 1.0, None])     # None = offsets ignored = loosest
@@ -262,7 +278,7 @@ FUNCS = [
                mono=[ONSET_CHAIN, PITCH_CHAIN, STRICT_CHAIN], mono_keys=list(PRF)),
     Func("transcription.onset_precision_recall_f1", M.onset_precision_recall_f1, PRF,
          [("onset_tolerance", [0.05, 0.04, 0.01, 0.1]), ("strict", [False, True]), ("beta", [1.0, 0.5, 2.0])],
-         build_iv, model, S.onset_precision_recall_f1, {k: "P01" for k in PRF}, optimum=opt_prf, swap=SWAP,
+         build_iv, model, S.onset_precision_recall_f1, {k: "P01" for k in PRF}, optimum=opt_prf, swap=swap_map,
          mono=[ONSET_CHAIN, STRICT_CHAIN], mono_keys=list(PRF)),
     Func("transcription.offset_precision_recall_f1", M.offset_precision_recall_f1, PRF,
          [("offset_ratio", [0.2, 0.5, 0.06]), ("offset_min_tolerance", [0.05, 0.01, 0.1]),
@@ -270,24 +286,23 @@ FUNCS = [
          build_iv, model, S.offset_precision_recall_f1, {k: "P01" for k in PRF}, optimum=opt_prf,
          mono=[RATIO_CHAIN_OFFSET_ONLY, MIN_CHAIN, STRICT_CHAIN], mono_keys=list(PRF)),
 ]
-# F-measure is symmetric under the swap only for beta == 1 (a C06 driver must skip the other beta values)
-for _f in FUNCS:
-    _f.swap_requires = {"beta": 1.0}
-
 TASK = Task("transcription", FUNCS, pair_space, single_space)
 
-# C07 "nested criteria", across functions (same state; cfg restricted to the parameters both functions take):
-#   (lo function, lo key, hi function, hi key, shared parameters)
+# C07 "nested criteria" across functions, in the form generic.check_cross consumes:
+#   ((lo function, lo key, lo cfg), (hi function, hi key, hi cfg))  =>  lo value <= hi value on every state.
+# Exactly what the property states: with offsets <= without offsets <= onset-only, for Precision and Recall.
+_F_OFF = "transcription.precision_recall_f1_overlap"
+_F_NOOFF = "transcription.precision_recall_f1_overlap[no_offset]"
+_F_ONSET = "transcription.onset_precision_recall_f1"
 TASK.cross_nested = []
-for _k in ("Precision", "Recall"):
-    TASK.cross_nested.append(("transcription.precision_recall_f1_overlap", _k,
-                              "transcription.precision_recall_f1_overlap[no_offset]", _k,
-                              ("onset_tolerance", "pitch_tolerance", "strict")))
-    TASK.cross_nested.append(("transcription.precision_recall_f1_overlap[no_offset]", _k,
-                              "transcription.onset_precision_recall_f1", _k, ("onset_tolerance", "strict")))
-    TASK.cross_nested.append(("transcription.precision_recall_f1_overlap", _k,
-                              "transcription.offset_precision_recall_f1", _k,
-                              ("offset_ratio", "offset_min_tolerance", "strict")))
+for _cfg in ({}, {"strict": True}, {"onset_tolerance": 0.04}, {"onset_tolerance": 0.1}, {"pitch_tolerance": 1.0}):
+    _on = {k: v for k, v in _cfg.items() if k in ("onset_tolerance", "strict")}
+    for _k in ("Precision", "Recall"):
+        TASK.cross_nested.append(((_F_OFF, _k, dict(_cfg)), (_F_NOOFF, _k, dict(_cfg))))
+        TASK.cross_nested.append(((_F_NOOFF, _k, dict(_cfg)), (_F_ONSET, _k, dict(_on))))
+for _r in (0.5, 0.06):
+    for _k in ("Precision", "Recall"):
+        TASK.cross_nested.append(((_F_OFF, _k, {"offset_ratio": _r}), (_F_NOOFF, _k, {})))
 TASK.ambiguous_self_matching = ambiguous_self_matching
 
 
